@@ -25,6 +25,8 @@ def rand_spec(rng, depth=0, allow_gift=True):
         spec["stalls"] = 1 if r < 0.22 else (2 if r < 0.33 else 3)
     if rng.random() < 0.15:
         spec["only"] = True
+    if kind != "local" and rng.random() < 0.25:
+        spec["pos"] = rng.choice(("all", "some"))        # arguments passed positionally (all four / all but the last)
     if kind == "plain" and depth < 2 and rng.random() < 0.2:
         # issued from inside the remote_ method, in the opposite direction (gifts stay in direction 0)
         spec["reenter"] = [rand_spec(rng, depth + 1, allow_gift=False) for _ in range(rng.choice((1, 1, 2)))]
@@ -89,8 +91,8 @@ def stall_burst(rng, k, stalls, chunks):
 
 def gift_block(rng, k, ok, chunks):
     """a call waiting for a third-party reference is followed by k calls; all are delivered before it resolves"""
-    sc = [["issue", 0, dict(kind="gift")]]
-    sc += [["issue", 0, dict(kind=rng.choice(("plain", "plain", "gift", "late")))] for _ in range(k)]
+    sc = [["issue", 0, dict(kind="gift", pos=rng.choice((None, "all", "some")))]]
+    sc += [["issue", 0, dict(kind=rng.choice(("plain", "plain", "gift", "late")), pos=rng.choice((None, None, "all")))] for _ in range(k)]
     sc += [["deliver", 0, chunks] for _ in range(k + 1)]
     sc += [["turn"], ["turn"]]
     sc += [["gift", 0, 0, ok], ["turn"], ["gift", 0, 0, True], ["turn"], ["turn"]]
@@ -208,13 +210,15 @@ def judge(r):
                                     "call(s) %r had neither been entered nor failed" % (d, c, sorted(late))))
                 done.add(c)
         # after quiescence: exactly the acceptable calls were entered, once
-        failed_gifts = set(c for e, c in ev if e == "failed")
+        # only a gift that the scenario itself made unresolvable excuses a call from being entered
+        failed_gifts = set(o[1] for ops in r["ops"][d] for o in ops if o[0] == "G" and not o[2])
         kinds = {c: k for c, k, _ in issued}
         for c, k in kinds.items():
             n = ent.count(c)
             if k in OK_KINDS and n == 0 and c not in failed_gifts:
-                bad.append(("oracle/lost-call", "direction %d: call %d (%s) was issued but never entered, although every stall was "
-                            "released, every byte delivered and every gift resolved" % (d, c, k)))
+                bad.append(("oracle/lost-call", "direction %d: call %d (%s) was issued but never entered%s, although every stall was "
+                            "released, every byte delivered and every gift resolved"
+                            % (d, c, k, " (the receiver reported it as failed)" if ("failed", c) in ev else "")))
             if k == "gift" and c in failed_gifts and n:
                 bad.append(("oracle/rejected-call-entered", "direction %d: call %d entered although its gift failed" % (d, c)))
             if k not in OK_KINDS and n:
@@ -371,6 +375,68 @@ def tubs_family(ctx, impl):
     ctx.sample(dict(tubs_case=case, entered=ent))
 
 
+def judge_negotiated(r):
+    bad = []
+    if not r.get("master_attached") or "entered" not in r:
+        return [("harness-inconsistency", "negotiation did not complete: %r" % r)]
+    n = r["issued"]
+    for who, ent, res, want in (("calls of the deciding side", r["entered"], r["results"], list(range(n))),
+                                ("calls of the other side", r["slave_entered"], r["slave_results"], sorted(r["slave_results"]))):
+        if len(set(ent)) != len(ent):
+            bad.append(("oracle/duplicate-entry", "%s: a call was entered more than once: %r" % (who, ent)))
+        elif ent != sorted(ent):
+            bad.append(("oracle/order", "%s: issued in the order %r, entered in the order %r" % (who, want, ent)))
+        elif ent != want:
+            bad.append(("oracle/lost-call", "%s: issued %r, entered only %r%s" % (who, want, ent,
+                        " (the connection was dropped)" if any(r["lost"]) else "")))
+        wrong = {c: v for c, v in res.items() if v != c}
+        if wrong and not bad:
+            bad.append(("oracle/wrong-answer", "%s: answers %r" % (who, wrong)))
+    if any(r["lost"]) and not bad:
+        bad.append(("oracle/connection-lost", "the freshly negotiated connection was dropped"))
+    return bad
+
+
+def negotiated_family(ctx, impl, fixed):
+    """connections that start with a real negotiation; the deciding side calls at once, so its first calls follow the
+    decision block on the wire; that stream is cut into packets everywhere and several packets are handed over before the
+    eventual queue runs"""
+    rng = ctx.rng
+    reported = set()
+
+    def go(cfg):
+        r = impl.run_negotiated(cfg["master_is_client"], cfg["n_first"], cfg["n_later"], cfg["cuts"], cfg["burst"], cfg["seed"],
+                                pad=cfg.get("pad", 0), slave_calls=cfg.get("slave_calls", 0))
+        ctx.case(["negotiated", cfg], nontrivial=bool(cfg["cuts"]) and cfg["n_first"] >= 2)
+        ctx.hist("negotiated_packets", len(cfg["cuts"]) + 1)
+        for sig, what in judge_negotiated(r):
+            if sig not in reported or len(cfg["cuts"]) <= 1:
+                reported.add(sig)
+                ctx.fail(sig, "connection starting with a negotiation: %s [%r; the deciding side's stream is %s bytes, its decision "
+                         "block ends at byte %s; `cuts` are the packet boundaries, `burst` packets are delivered back to back]"
+                         % (what, cfg, r.get("stream_len"), r.get("decision_len")),
+                         replay=dict(family="negotiated", cfg=cfg, result={k: v for k, v in r.items() if k != "got"}),
+                         has_input=not sig.startswith("harness"))
+        return r
+    # fixed part (independent of the random stream): every two-packet split of [decision block + first calls]
+    for cfg0 in fixed:
+        probe = go(dict(cfg0, cuts=[], burst=1))
+        if "stream_len" not in probe:
+            continue
+        lo, hi = max(1, probe["decision_len"] - 4), probe["stream_len"]
+        step = cfg0.get("step", 1)
+        offs = sorted(set(list(range(lo, hi, step)) + [probe["decision_len"], probe["decision_len"] + 1, hi - 1]))
+        for o in offs:
+            go(dict(cfg0, cuts=[o], burst=2))
+    # random part: several cuts, longer bursts, padded calls, calls in both directions
+    for i in range(ctx.n(60, 1500)):
+        n_first = rng.randint(1, 5)
+        cfg = dict(master_is_client=rng.random() < 0.5, n_first=n_first, n_later=rng.randint(0, 3), burst=rng.randint(1, 4),
+                   seed=rng.randrange(1 << 30), pad=rng.choice((0, 0, 30, 300)), slave_calls=rng.choice((0, 0, 2)))
+        cfg["cuts"] = sorted(rng.sample(range(1, 400 + 60 * n_first), rng.randint(1, 5)))
+        go(cfg)
+
+
 def unit_facts(ctx, impl):
     """each translated shape fact, measured on the real class and evaluated in the model's queue primitives"""
     ns = list(range(0, 6))
@@ -467,7 +533,7 @@ def run(ctx):
     # 1. corpus first (regression witnesses; must pass)
     if os.path.isdir(CORPUS):
         for fn in sorted(os.listdir(CORPUS)):
-            if fn.endswith(".json"):
+            if fn.endswith(".json") and fn != "negotiated.json":
                 doc = json.load(open(os.path.join(CORPUS, fn)))
                 r = do("corpus/" + fn, doc["script"], loopback=bool(doc.get("loopback")))
                 ctx.sample(dict(corpus=fn, entered=[[c for e, c in r["events"][d] if e == "entered"] for d in (0, 1)]))
@@ -512,6 +578,15 @@ def run(ctx):
         do("loopback-random-%d" % i, sc, loopback=True)
     # 3b. real Tubs on the in-memory network, real third-party references (Tub.getReference to a third Tub)
     tubs_family(ctx, impl)
+    # 3c. connections that start with a real negotiation
+    fixed = [dict(master_is_client=True, n_first=2, n_later=1, seed=11), dict(master_is_client=False, n_first=3, n_later=0, seed=12, step=ctx.n(2, 1))]
+    fn = os.path.join(CORPUS, "negotiated.json")
+    if os.path.exists(fn):
+        fixed = json.load(open(fn))["configs"]
+        for c in fixed:
+            if "step_quick" in c:
+                c["step"] = ctx.n(c.pop("step_quick"), 1)
+    negotiated_family(ctx, impl, fixed)
     # 4. correspondence
     model_ok = ok
     if not ok:
